@@ -4,6 +4,7 @@ import (
 	"bytes"
 	"errors"
 	"fmt"
+	"math/big"
 	"regexp"
 	"strconv"
 	"strings"
@@ -662,7 +663,14 @@ func parseNumberLiteral(literal string) (value interface{}, err error) { //nolin
 		return value, nil
 	}
 
-	parseIntErr := err // Save this first error, just in case
+	if errors.Is(err, strconv.ErrRange) {
+		// An integer literal too large for int64 (e.g. 0x8000000000000000): convert it
+		// exactly and round once. The base prefixes are those ParseInt accepted above.
+		if integer, ok := new(big.Int).SetString(literal, 0); ok {
+			number, _ := new(big.Float).SetInt(integer).Float64()
+			return number, nil
+		}
+	}
 
 	value, err = strconv.ParseFloat(literal, 64)
 	if err == nil {
@@ -670,26 +678,6 @@ func parseNumberLiteral(literal string) (value interface{}, err error) { //nolin
 	} else if errors.Is(err, strconv.ErrRange) {
 		// Infinity, etc.
 		return value, nil
-	}
-
-	// TODO(steve): Fix as this is assigning to err so we know the type.
-	// Need to understand what this was trying to do?
-	err = parseIntErr
-
-	if errors.Is(err, strconv.ErrRange) {
-		if len(literal) > 2 && literal[0] == '0' && (literal[1] == 'X' || literal[1] == 'x') {
-			// Could just be a very large number (e.g. 0x8000000000000000)
-			var value float64
-			literal = literal[2:]
-			for _, chr := range literal {
-				digit := digitValue(chr)
-				if digit >= 16 {
-					return nil, fmt.Errorf("illegal numeric literal: %v (>= 16)", digit)
-				}
-				value = value*16 + float64(digit)
-			}
-			return value, nil
-		}
 	}
 
 	return nil, errors.New("illegal numeric literal")
